@@ -287,8 +287,23 @@ def finalize(m):
     return []
 
 
+def times_of(lines):
+    out = []
+    for l in lines:
+        m = re.match(r'\[\s*(\d+)[.,](\d{3})\]', l)
+        out.append(int(m.group(1)) * 1000 + int(m.group(2)))
+    return out
+
+
 def replay(ctx, case):
     env.setup()
+    hooks = {int(a): b for a, b in (case.get('hooks') or {}).items()}
+    s0 = Session(filter_text=case.get('filter'))
+    s0.feed([l + '\n' for l in case['lines']], hooks=hooks)
+    times = times_of(case['lines'])
+    st = {'entries': [{'line': l} for l in case['lines']]}
+    ctx.ev()
+    check_live(ctx, st, times, shown_sequence(s0, st), times[0], case, tag='[replay] ')
     s = Session(filter_text=case.get('filter'))
     s.feed([l + '\n' for l in case['lines']], hooks={int(a): b for a, b in (case.get('hooks') or {}).items()})
     if case.get('command'):
